@@ -421,6 +421,15 @@ def install_points():
                           P.close: None, P.demand_attention: None})
 
 
+def install_points_newcomer():
+    from dv import sched, simkernel as sk
+    mods = sk.load_node()
+    N = mods["node"].Node
+    sched.clear()
+    return sched.install({N.receive_cer: r"self\.connections|origin_host == cer_origin_host",
+                          N._add_peer_connection: r"self\.connections\[", N._handle_connections: r"\.accept\(|add_in_bytes"})
+
+
 def cea_rejected_vs_io_loop(decisions, rc1=3010):
     """Two dialled connections await their CEA; the first CEA rejects (the connection's reader thread closes the
     connection and removes it from the tables), the second accepts - while the I/O loop goes on serving.  One schedule."""
@@ -482,8 +491,11 @@ def cer_vs_table_change(decisions, other="loss"):
         if other == "loss":
             b.peer_closed = True
             b.remote.close()
-        else:
+        elif other == "newcomer":
             w.net.connect_to(W.NODE_IP, 3868, "10.1.1.9")       # a newcomer is accepted at the same moment
+        else:
+            # ... or a newcomer whose connection request arrives at any moment while the CER is being handled
+            w.k.spawn(lambda: w.net.connect_to(W.NODE_IP, 3868, "10.1.1.9"), name="network")
         ex.armed = True
         w.k.run()
         ex.armed = False
@@ -649,7 +661,9 @@ def schedule_part(rec, shard, nshards, thorough):
     info = install_points()
     if shard == 0:
         rec.extra["preemption_functions"] = info
-    for other in ("loss", "newcomer"):
+    for other in ("loss", "newcomer", "newcomer-any-moment"):
+        if other == "newcomer-any-moment":
+            install_points_newcomer()
         holder2 = {}
 
         def run_two(dec, other=other):
@@ -657,7 +671,7 @@ def schedule_part(rec, shard, nshards, thorough):
             holder2["last"] = problems
             return tr
         n2 = 0
-        for dec, trace in sched.enumerate_schedules(run_two, 2 if thorough else 1, shard, nshards):
+        for dec, trace in sched.enumerate_schedules(run_two, (3 if thorough else 2) if other == "newcomer-any-moment" else (2 if thorough else 1), shard, nshards):
             case = {"cer_vs_table_change": other, "schedule": {str(i): c for i, c in sorted(dec.items())}}
             for kind, detail in holder2["last"]:
                 rec.violation(f"C06/concurrent-cer/{kind}", case, detail)
@@ -665,6 +679,7 @@ def schedule_part(rec, shard, nshards, thorough):
             rec.case(fp("sched-cer", other, tuple(sorted(dec.items()))) if dec else None,
                      ["schedule-exploration", f"cer-vs:{other}", f"deviations:{len(dec)}"], sample=lambda: dict(case, choice_points=len(trace)))
         rec.extra["cer_vs_table_schedules"] = rec.extra.get("cer_vs_table_schedules", 0) + n2
+    install_points()
     holder = {}
 
     def run_one(dec):
@@ -813,7 +828,7 @@ def replay(doc):
     if doc["case"].get("cea_rejected_vs_io_loop"):
         return replay_schedule(doc)
     if doc["case"].get("cer_vs_table_change"):
-        install_points()
+        install_points_newcomer() if doc["case"]["cer_vs_table_change"] == "newcomer-any-moment" else install_points()
         _, problems = cer_vs_table_change({int(i): c for i, c in doc["case"]["schedule"].items()}, doc["case"]["cer_vs_table_change"])
         sigs = [f"C06/concurrent-cer/{k}" for k, _ in problems]
         if doc["signature"] in sigs:
